@@ -381,10 +381,12 @@ func (l *log) delete(offsets map[int64]struct{}) ([]Message, int64, error) {
 
 	wasWriter := false
 	var writerVersion message.Version
+	var writerSize int64 = -1
 	l.writerMu.Lock()
 	if l.writer.reader == rdr {
 		wasWriter = true
 		writerVersion = l.writer.messages.Version()
+		writerSize = l.writer.messages.Size()
 		if err := l.writer.Sync(); err != nil {
 			l.writerMu.Unlock()
 			return nil, 0, err
@@ -415,7 +417,9 @@ func (l *log) delete(offsets map[int64]struct{}) ([]Message, int64, error) {
 			mversion, iversion = message.V2, index.V2
 		}
 	}
-	rs, err := rdr.segment.Rewrite(offsets, l.params, mversion, iversion)
+	// a writing segment is only read up to what was written when we looked at it,
+	// since a concurrent publish might be half way through appending a message
+	rs, err := rdr.segment.RewriteLimit(writerSize, offsets, l.params, mversion, iversion)
 	if err != nil {
 		return nil, 0, err
 	}
